@@ -200,6 +200,59 @@ fn c03_deallocate() {
     kani::cover!(sel == 2);
 }
 
+/// Deallocate with annotations on addresses that are not multiples of 4 (labels and strings may
+/// sit on any address): label "U" at 9, string "T" on the unaligned address `t_addr` (chosen per
+/// arm so that its four bytes are either all kept or start inside the removed range).
+fn check_deallocate_unaligned(addr: usize, n: usize, ge: bool, t_addr: usize) {
+    let (mut a, _old) = toy();
+    keep(a.write_label(9, "U")).unwrap();
+    keep(a.write_string(t_addr, Some("T"))).unwrap();
+    keep(a.deallocate(addr, n, ge)).unwrap();
+    let inside = |x: usize| x >= addr && x < addr + n;
+    let u = a.find_label_address("U");
+    if inside(9) {
+        assert!(u.is_none(), "C03: deallocate must delete a label on an unaligned address inside the removed range");
+    } else {
+        assert!(u == Some(back(9, addr, n, ge)), "C03: deallocate must keep an unaligned label outside the range and shift it back");
+    }
+    let mut t_at: Option<usize> = None;
+    let mut t_count = 0;
+    for x in 0..SZ {
+        if x + 4 <= SZ - n {
+            if let Some(s) = keep(a.read_string(x)).unwrap() {
+                if s == "T" {
+                    t_at = Some(x);
+                    t_count += 1;
+                }
+                std::mem::forget(s);
+            }
+        }
+    }
+    if inside(t_addr) {
+        assert!(t_count == 0, "C03: deallocate must delete a string on an unaligned address inside the removed range");
+    } else {
+        assert!(t_count == 1 && t_at == Some(back(t_addr, addr, n, true)), "C03: deallocate must keep an unaligned string outside the range and shift it back");
+    }
+    std::mem::forget(a);
+}
+
+// @tier quick
+// @timeout 1500
+// @mem 12
+// @bounds toy archive plus label "U" at 9 and string "T" on address 2 (first arm) or 6; deallocate (address, amount, inclusive) in {(8,4,F), (4,4,F), (0,4,T)} (solver-chosen arm)
+// @claims deallocate deletes / shifts labels and strings that sit on addresses which are not multiples of 4 exactly like aligned ones
+#[kani::proof]
+#[kani::unwind(24)]
+fn c03_deallocate_unaligned() {
+    let sel: u8 = kani::any();
+    kani::assume(sel < 3);
+    if sel == 0 { check_deallocate_unaligned(8, 4, false, 2); }
+    if sel == 1 { check_deallocate_unaligned(4, 4, false, 6); }
+    if sel == 2 { check_deallocate_unaligned(0, 4, true, 6); }
+    kani::cover!(sel == 0);
+    kani::cover!(sel == 1);
+}
+
 fn check_truncate(cut: usize) {
     let (mut a, old) = toy();
     keep(a.write_label(9, "U")).unwrap(); // a label on an unaligned address beyond the cut
